@@ -87,33 +87,55 @@ type RegexVar struct {
 	Obj     types.Object
 }
 
-// azWrapper reads regex.MustCompileAz: prefix and suffix put around its argument.
+// azWrapper reads regex.MustCompileAz: prefix and suffix put around its argument. Decided on SSA: the
+// argument of regexp.MustCompile is a concatenation of constants around exactly one occurrence of the
+// function's parameter, written inline or through a helper of the package (wrapAz(r)), with literals or
+// named constants.
 func azWrapper(e *Env) (pre, suf string, ok bool) {
-	fd, pk := e.P.Decl("internal/pkg/regex", "MustCompileAz")
-	if fd == nil {
+	fn := e.P.Func("internal/pkg/regex", "MustCompileAz")
+	if fn == nil || len(fn.Params) != 1 {
 		return
 	}
-	ast.Inspect(fd.Body, func(n ast.Node) bool {
-		call, isCall := n.(*ast.CallExpr)
-		if !isCall || calleeName(load.Callee(pk.TypesInfo, call)) != "regexp.MustCompile" || len(call.Args) != 1 {
-			return true
+	// flatten a string expression into constant pieces and the marker "\x00" for the parameter
+	var flat func(f *ssa.Function, v ssa.Value, param ssa.Value, d int) (string, bool)
+	flat = func(f *ssa.Function, v ssa.Value, param ssa.Value, d int) (string, bool) {
+		if d > 6 {
+			return "", false
 		}
-		// `lit` + r + `lit`
-		be, isB := ast.Unparen(call.Args[0]).(*ast.BinaryExpr)
-		if !isB || be.Op != token.ADD {
-			return true
+		if v == param {
+			return "\x00", true
 		}
-		inner, isB2 := ast.Unparen(be.X).(*ast.BinaryExpr)
-		if !isB2 {
-			return true
+		switch x := v.(type) {
+		case *ssa.Const:
+			if s, ok := constString(x); ok {
+				return s, true
+			}
+		case *ssa.BinOp:
+			if x.Op == token.ADD {
+				l, ok1 := flat(f, x.X, param, d+1)
+				r, ok2 := flat(f, x.Y, param, d+1)
+				return l + r, ok1 && ok2
+			}
+		case *ssa.Call:
+			g := x.Call.StaticCallee()
+			if g != nil && g.Pkg == fn.Pkg && len(g.Blocks) == 1 && len(g.Params) == 1 && len(x.Call.Args) == 1 {
+				if ret, isRet := g.Blocks[0].Instrs[len(g.Blocks[0].Instrs)-1].(*ssa.Return); isRet && len(ret.Results) == 1 {
+					inner, ok1 := flat(g, ret.Results[0], g.Params[0], d+1)
+					arg, ok2 := flat(f, x.Call.Args[0], param, d+1)
+					if ok1 && ok2 {
+						return strings.ReplaceAll(inner, "\x00", arg), true
+					}
+				}
+			}
 		}
-		p, ok1 := load.StringOf(pk.TypesInfo, inner.X)
-		s, ok2 := load.StringOf(pk.TypesInfo, be.Y)
-		if _, isParam := ast.Unparen(inner.Y).(*ast.Ident); ok1 && ok2 && isParam {
-			pre, suf, ok = p, s, true
+		return "", false
+	}
+	for _, c := range findCalls(fn, "regexp.MustCompile", false) {
+		if s, okF := flat(fn, c.Common().Args[0], fn.Params[0], 0); okF && strings.Count(s, "\x00") == 1 {
+			i := strings.Index(s, "\x00")
+			pre, suf, ok = s[:i], s[i+1:], true
 		}
-		return true
-	})
+	}
 	return
 }
 
@@ -1327,39 +1349,66 @@ func isPrimitiveRule(e *Env, rule string) {
 		"Uint": true, "Uint8": true, "Uint16": true, "Uint32": true, "Uint64": true, "Float32": true, "Float64": true}
 	got := map[string]bool{}
 	nilOK := false
+	// the function and the helpers of its package it calls (isPrimitiveKind(k))
+	bodies := []*ast.BlockStmt{fd.Body}
 	ast.Inspect(fd.Body, func(n ast.Node) bool {
-		switch x := n.(type) {
-		case *ast.CaseClause:
-			returnsTrue := false
-			for _, s := range x.Body {
-				if rs, ok := s.(*ast.ReturnStmt); ok && len(rs.Results) == 1 {
-					if tv, ok := pk.TypesInfo.Types[rs.Results[0]]; ok && tv.Value != nil && tv.Value.String() == "true" {
-						returnsTrue = true
-					}
+		if call, ok := n.(*ast.CallExpr); ok {
+			if callee, ok := load.Callee(pk.TypesInfo, call).(*types.Func); ok && callee.Pkg() == pk.Types {
+				if hd, _ := e.P.DeclOf(callee); hd != nil && hd.Body != nil && hd != fd {
+					bodies = append(bodies, hd.Body)
 				}
 			}
-			if returnsTrue {
-				for _, c := range x.List {
-					if se, ok := ast.Unparen(c).(*ast.SelectorExpr); ok {
-						got[se.Sel.Name] = true
-					}
-				}
-			}
-		case *ast.IfStmt:
-			if be, ok := ast.Unparen(x.Cond).(*ast.BinaryExpr); ok && be.Op == token.EQL {
-				if id, ok := ast.Unparen(be.Y).(*ast.Ident); ok && id.Name == "nil" {
-					for _, s := range x.Body.List {
-						if rs, ok := s.(*ast.ReturnStmt); ok && len(rs.Results) == 1 {
-							if tv, ok := pk.TypesInfo.Types[rs.Results[0]]; ok && tv.Value != nil && tv.Value.String() == "true" {
-								nilOK = true
-							}
-						}
+		}
+		return true
+	})
+	// `return v == nil || …`
+	ast.Inspect(fd.Body, func(n ast.Node) bool {
+		if rs, ok := n.(*ast.ReturnStmt); ok && len(rs.Results) == 1 {
+			if be, ok := ast.Unparen(rs.Results[0]).(*ast.BinaryExpr); ok && be.Op == token.LOR {
+				if l, ok := ast.Unparen(be.X).(*ast.BinaryExpr); ok && l.Op == token.EQL {
+					if id, ok := ast.Unparen(l.Y).(*ast.Ident); ok && id.Name == "nil" {
+						nilOK = true
 					}
 				}
 			}
 		}
 		return true
 	})
+	for _, body := range bodies {
+		ast.Inspect(body, func(n ast.Node) bool {
+			switch x := n.(type) {
+			case *ast.CaseClause:
+				returnsTrue := false
+				for _, s := range x.Body {
+					if rs, ok := s.(*ast.ReturnStmt); ok && len(rs.Results) == 1 {
+						if tv, ok := pk.TypesInfo.Types[rs.Results[0]]; ok && tv.Value != nil && tv.Value.String() == "true" {
+							returnsTrue = true
+						}
+					}
+				}
+				if returnsTrue {
+					for _, c := range x.List {
+						if se, ok := ast.Unparen(c).(*ast.SelectorExpr); ok {
+							got[se.Sel.Name] = true
+						}
+					}
+				}
+			case *ast.IfStmt:
+				if be, ok := ast.Unparen(x.Cond).(*ast.BinaryExpr); ok && be.Op == token.EQL {
+					if id, ok := ast.Unparen(be.Y).(*ast.Ident); ok && id.Name == "nil" {
+						for _, s := range x.Body.List {
+							if rs, ok := s.(*ast.ReturnStmt); ok && len(rs.Results) == 1 {
+								if tv, ok := pk.TypesInfo.Types[rs.Results[0]]; ok && tv.Value != nil && tv.Value.String() == "true" {
+									nilOK = true
+								}
+							}
+						}
+					}
+				}
+			}
+			return true
+		})
+	}
 	for k := range want {
 		r.Check(got[k], rule, key+"#kind:"+k, "reflect."+k+" is a primitive (YAML scalars of this kind are accepted as parameters and arguments)")
 	}
